@@ -54,6 +54,7 @@ type builtArchive struct {
 	bytes    []byte
 	entries  []*builtEntry
 	readable bool
+	dup      bool // two entries (here or below) share a name: the later one overwrites the earlier one
 }
 
 // extensions the library treats as "zip" (filesystem.ZipFileExtensions), compared case-insensitively on filepath.Ext
@@ -104,8 +105,13 @@ func deflate(data []byte) []byte {
 
 func build(a *archiveSpec) *builtArchive {
 	ba := &builtArchive{readable: !a.Garbage}
+	names := map[string]bool{}
 	for i := range a.Entries {
 		e := &a.Entries[i]
+		if names[e.Name] {
+			ba.dup = true
+		}
+		names[e.Name] = true
 		be := &builtEntry{spec: e, openable: true, crcOK: true}
 		clean := strings.TrimSuffix(e.Name, "/")
 		be.depth = strings.Count(clean, "/")
@@ -114,6 +120,7 @@ func build(a *archiveSpec) *builtArchive {
 			case e.Nested != nil:
 				be.nested = build(e.Nested)
 				be.data = be.nested.bytes
+				ba.dup = ba.dup || be.nested.dup
 			default:
 				be.data = content(e, i+len(e.Name))
 			}
@@ -280,6 +287,9 @@ func (e *builtEntry) recursed(recursive bool) bool {
 // modelExact: the Coq model predicts the exact number of bytes written only for undamaged streams, and, when the stream is
 // shorter than declared, only for stored data (archive/zip drops the final chunk of a deflated stream that ends early).
 func (a *builtArchive) modelExact(recursive bool) bool {
+	if a.dup { // the model's disk is a list of distinct paths
+		return false
+	}
 	for _, e := range a.entries {
 		if e.spec.Dir {
 			continue
